@@ -399,6 +399,10 @@ def initialize_pit(net):
         # entries have to be written first (relevant if the valve table was created before the
         # pipe table in a net without default components)
         components.insert(tables.index("pipe"), components.pop(tables.index("valve")))
+    # external grids overwrite the start temperature of their junction, which branch components copy
+    # as start value of their outlet temperature. With the default components external grids come
+    # last; keep it like that for any creation order, so that results do not depend on it.
+    components.sort(key=lambda comp: comp.table_name() == "ext_grid")
     for comp in components:
         comp.create_pit_node_entries(net, pit["node"])
         comp.create_pit_branch_entries(net, pit["branch"])
